@@ -1,7 +1,7 @@
 """What MANIFEST.json claims, per property.  Keep in step with the harness modules."""
 
 SOURCE_COMMITS = []
-PYVC_PROPS = {'C01', 'C03', 'C04', 'C06', 'C09', 'C13', 'C16', 'C17', 'C18'}
+PYVC_PROPS = {'C01', 'C02', 'C03', 'C04', 'C06', 'C08', 'C09', 'C11', 'C13', 'C16', 'C17', 'C18', 'C20'}
 NOTES = ('Two engines share one contract language (DESIGN.md section 2). Engine A (pyvc) is the deductive, unbounded tier; '
          'Engine B (symx) is the bounded stand-in and is labelled so in every evidence file. Exit codes: 0 held, 1 violation '
          '(replayed natively), 2 undecided, 3 checker error.')
@@ -12,7 +12,8 @@ _B_NOTE = ('Assumes exact real arithmetic for floats (A1) and the assumptions ec
 CLAIMED = {
     'C01': dict(category='other', technique='contracts on the real functions; SMT-discharged VCs (pyvc) + per-shape exhaustive symbolic execution (symx)',
                 text='Evaluation entry points equal the Cox-de Boor tensor-product definition: identity in QQ(knots, parameters, control points, weights) '
-                     'on every feasible path of the real code for each enumerated shape; grid size/order/corners checked structurally.',
+                     'on every feasible path of the real code for each enumerated shape; grid size/order/corners checked structurally. Engine A, every size/degree: span search, basis functions (= Cox-de Boor), '
+                     'curve / surface / volume evaluators index inside the net, result size and order, weight function positive (no zero divisor).',
                 note=_B_NOTE),
     'C04': dict(category='other', technique='contracts on the real functions; SMT-discharged VCs (pyvc) + per-shape exhaustive symbolic execution (symx)',
                 text='Knot insertion preserves the shape: identity between the spec curve/surface/volume of the original definition and the '
@@ -40,7 +41,8 @@ CLAIMED = {
                 note=_B_NOTE + ' A4: math.cos/sin by contract.'),
     'C13': dict(category='other', technique='contracts on the layout-dependent functions; per-shape exhaustive symbolic execution (symx) with one distinct symbol per control point',
                 text='2-D grid view, control point managers, flips, transpose, flip, extract/construct round trips and sweeps all address the same point for the same (u,v,w) on nets '
-                     'with pairwise different sizes; round trips return the original shape and evaluate identically.',
+                     'with pairwise different sizes; round trips return the original shape and evaluate identically. Engine A, every size: managers compute v + size_v*(u + size_u*w), in range and injective; '
+                     'the surface / volume evaluators read the control point that convention puts there (active-hull contracts with index-monotone ghost bounds).',
                 note=_B_NOTE),
     'C05': dict(category='other', technique='contracts on helpers.knot_refinement / operations.refine_knotvector; per-shape exhaustive symbolic execution (symx)',
                 text='Refinement leaves evaluate_single(u) equal to the spec point of the original definition (identity in symbolic knots, parameter, control points, weights); the new knot vector '
@@ -54,8 +56,9 @@ CLAIMED = {
                 text='Every piece evaluated at the pulled-back parameter equals the spec point of the original for a symbolic split parameter (inside a span or on a knot) and symbolic u (v); '
                      'input unchanged; split at a domain end rejected; decomposition gives one Bezier piece per non-empty interval (pair), in order.',
                 note=_B_NOTE),
-    'C08': dict(category='other', technique='contracts on helpers.degree_elevation / degree_reduction; symbolic execution (symx) with every coordinate symbolic',
-                text='For p = 1..8, t = 1..4: the Bernstein-to-monomial coefficient vectors of the elevated and the original polygon are identical polynomials in the control point symbols; '
+    'C08': dict(category='other', technique='SMT-discharged VCs (pyvc) on helpers.degree_elevation / degree_reduction / linalg.binomial_coefficient with ghost lemmas; symbolic execution (symx) with every coordinate symbolic',
+                text='Engine A, every degree / count / dimension: result sizes, end points unchanged, normal return implies Bezier input with num >= 1 (degree >= 2 for reduction), elevation by one in closed form '
+                     '(from two binomial identities proved as ghost lemmas), and reduce(elevate(P, 1)) == P (composition lemma). Engine B: For p = 1..8, t = 1..4: the Bernstein-to-monomial coefficient vectors of the elevated and the original polygon are identical polynomials in the control point symbols; '
                      'reduction of an exact elevation returns the original for degree 2..8; non-Bezier input, num <= 0 and degree < 2 rejected. Exhaustive over the degree range stated.',
                 note=_B_NOTE),
     'C03': dict(category='proof', technique='contract-based deductive verification: VCs from the AST of the real functions discharged by z3/cvc5 (pyvc); bounded symbolic execution (symx) for the variants not under an unbounded contract',
@@ -77,12 +80,13 @@ CLAIMED = {
                      'spec shape in QQ(knots, u, v, control points, weights); basis_function_ders(_one), derivative control points, hodograph constructors, tangent/normal (unit length and orthogonality modulo s*s = x).',
                 note=_B_NOTE + ' A4: math.sqrt by contract.'),
     'C11': dict(category='other', technique='contracts on fitting.*; per-shape exhaustive symbolic execution (symx) with the real LU solve in exact arithmetic',
-                text='interpolate_curve/surface: requested degree and C(uk[i]) == Q[i] (S(uk[i],vl[j]) == Q[i][j]) at the chord-length / centripetal parameters; compute_params / compute_knot_vector(2) closed forms; '
+                text='Engine A, every size: compute_params_curve starts at 0, ends at 1 and is strictly increasing for distinct consecutive data points; compute_knot_vector; forward/backward substitution solve L y = b, U x = y. Engine B: '
+                     'interpolate_curve/surface: requested degree and C(uk[i]) == Q[i] (S(uk[i],vl[j]) == Q[i][j]) at the chord-length / centripetal parameters; compute_params / compute_knot_vector(2) closed forms; '
                      'approximate_curve: end points interpolated and interior control points satisfy the normal equations rebuilt independently; approximate_surface: corners interpolated.',
                 note=_B_NOTE + ' A4: math.sqrt by contract; A7: a solution of the normal equations minimises the functional. 3-7 data points symbolic/concrete, up to 40 concrete in thorough.'),
     'C18': dict(category='other', technique='SMT-discharged VCs (pyvc) for the convex-combination facts through the real evaluator loop, bounding box and lemmas; per-shape symbolic execution (symx) for the object level',
                 text='Engine A, all degrees/sizes: basis functions are a non-negative partition of unity; the curve evaluators keep every coordinate half-space and (rational) homogeneous half-space that contains the '
-                     'control points; evaluate_bounding_box contains every control point. Engine B: evaluated point == sum lambda_i * find_ctrlpts points with lambda >= 0 summing to 1, inside bbox, clamped ends, length >= chord.',
+                     'control points; curve, surface and volume evaluators keep every evaluated point inside the bounds of the degree+1 (per direction) control points ACTIVE on its span (monotone ghost bounding sequences); evaluate_bounding_box contains every control point. Engine B: evaluated point == sum lambda_i * find_ctrlpts points with lambda >= 0 summing to 1, inside bbox, clamped ends, length >= chord.',
                 note=_B_NOTE + ' The upper bound length <= control polygon length is excluded (variation diminishing). A7: triangle inequality.'),
     'C16': dict(category='other', technique='SMT-discharged VCs (pyvc) for the vector/matrix helpers; per-shape exhaustive symbolic execution (symx) on fully symbolic n x n matrices for LU / solve / inverse / determinant / pivot and for history independence',
                 text='Fully symbolic matrices n = 1..3 (4 thorough): L*U == A, A*x == b, A*inv == I, determinant == Leibniz, P a permutation with mp == P*m; diagonally dominant and collocation matrices: lu_solve returns; '
